@@ -126,6 +126,7 @@ type world struct {
 	parked         bool
 	parkedOffline  bool // the parked step waits for the follower (else: for data)
 	lastAck        int64
+	folHas         map[int64]bool // positions the follower appended in its current log incarnation
 }
 
 type stepRun struct {
@@ -292,6 +293,12 @@ func (s *serverStream) Recv() (*protoReplicaV1.ReplicaRequest, error) {
 }
 
 func (s *serverStream) Send(resp *protoReplicaV1.ReplicaResponse) error {
+	if resp.Err == "" && resp.AckIndex == resp.ReplicaIndex {
+		// the follower appended this position (whether or not the answer reaches the leader)
+		s.p.w.mu.Lock()
+		s.p.w.folHas[resp.ReplicaIndex] = true
+		s.p.w.mu.Unlock()
+	}
 	select {
 	case s.p.respCh <- resp:
 		return nil
@@ -518,6 +525,9 @@ func (w *world) opFollowerLosesLog() {
 	w.noteFault()
 	w.closeFollower()
 	_ = os.RemoveAll(w.fol.dir)
+	w.mu.Lock()
+	w.folHas = map[int64]bool{}
+	w.mu.Unlock()
 	w.openFollower()
 	w.classes["fault-follower-lost-log"]++
 }
@@ -685,6 +695,22 @@ func (w *world) check(where string) {
 		if ack > w.lastAck && ack > fApp {
 			w.fatalf("%s: leader moved the position acknowledged by the follower from %d to %d, follower has appended up to %d", where, w.lastAck, ack, fApp)
 		}
+		if ack > w.lastAck {
+			// every position the leader newly regards as acknowledged must have been appended by the
+			// follower (in its current log) or still be readable there
+			w.mu.Lock()
+			for i := w.lastAck + 1; i <= ack; i++ {
+				if i < 0 || w.folHas[i] {
+					continue
+				}
+				if _, err := fq.Get(i); err == nil {
+					continue
+				}
+				w.mu.Unlock()
+				w.fatalf("%s: leader moved the position acknowledged by the follower from %d to %d, but the follower never appended position %d (follower ack=%d appended=%d)", where, w.lastAck, ack, i, fAck, fApp)
+			}
+			w.mu.Unlock()
+		}
 		w.lastAck = ack
 	}
 }
@@ -742,7 +768,7 @@ func runHistory(t *rapid.T) {
 	if err != nil {
 		t.Fatalf("harness: %v", err)
 	}
-	w := &world{t: t, root: root, posOf: map[uint64]int64{}, idBytes: map[uint64][]byte{}, classes: map[string]int{}, folOnline: true, lastAck: -1}
+	w := &world{t: t, root: root, posOf: map[uint64]int64{}, idBytes: map[uint64][]byte{}, classes: map[string]int{}, folOnline: true, lastAck: -1, folHas: map[int64]bool{}}
 	w.leader.dir = filepath.Join(root, "leader")
 	w.fol.dir = filepath.Join(root, "follower")
 	defer func() {
@@ -815,7 +841,7 @@ func TestKnown_LeaderLostTailDiverges(t *testing.T) {
 		if err != nil {
 			t.Fatalf("harness: %v", err)
 		}
-		w := &world{t: t, root: root, posOf: map[uint64]int64{}, idBytes: map[uint64][]byte{}, classes: map[string]int{}, folOnline: true, lastAck: -1}
+		w := &world{t: t, root: root, posOf: map[uint64]int64{}, idBytes: map[uint64][]byte{}, classes: map[string]int{}, folOnline: true, lastAck: -1, folHas: map[int64]bool{}}
 		w.leader.dir = filepath.Join(root, "leader")
 		w.fol.dir = filepath.Join(root, "follower")
 		defer func() {
